@@ -100,6 +100,32 @@ receipt-logs-in-map-order                                | no tests (mainchain/ 
 m20-no-revert-on-tx-error (checks/c06/m20-not-visible   | no tests                 | exit 0  | legitimately invisible to C06, see below
   .patch, deliberately NOT in /verif/mutants)            |                          |         |
 
+seeded-rebloom-skips-deleted-slots (independently written; | no tests (kai/state/     | exit 1  | C06|block=clrA@legacy+alloc-genesis|axis=snapshot|
+  /verif/seeded/C06): kai/state/snapshot/difflayer.go     |  snapshot)               | (2 of 2 |  field=state-read-back,
+  rebloom() does not add DELETED storage slots to the     |                          |  runs,  | C06|block=clrA/setB@legacy+alloc-genesis|axis=snapshot|
+  diff layers' bloom => a slot whose non-zero value is in |                          |  same   |  field=app-hash,
+  the snapshot DISK layer stays visible to snapshot nodes |                          |  sigs)  | C06|block=setB/clrA@legacy+alloc-genesis|axis=snapshot+
+  after a block cleared it; a LATER block reading it      |                          |         |  restart-enabling-snapshot|field=state-read-back
+  splits snapshot-on from snapshot-off nodes              |                          |         |
+
+The seeded change was MISSED by the first version of this check (quick exit 0). What excluded it: (1) every
+enumerated case was ONE block on a fixed parent state, while the defect needs a block that clears a slot and a LATER
+block that reads it; (2) the contract of the "deployed" parent states is created by a transaction in block 1, so its
+storage lives in a snapshot DIFF layer (already in the bloom) and never in the disk layer; the cold-restart variants
+journal the diff layers, they do not flatten them. Added (chains.go): parent states legacy+alloc-genesis and
+galaxias+alloc-genesis whose multi-purpose contract is part of the GENESIS allocation with non-zero slots 1..5 (in the
+snapshot disk layer from the start); CHAINS = every sequence of 2 (thorough 3) consecutive blocks with <= 1
+transaction of {(empty), setB, clrA, readB (new: slot5 = slot1 + 7), revB, killA}, built block after block through the
+real proposer path, executed on fresh nodes under 9 (thorough 30) variants {cache configuration corners / all 16} x
+{repetition} x {no restart, clean restart between blocks, restart that ENABLES snapshots}, compared field by field
+after EVERY block; new observation field state-read-back (the contract's account and slots 1..5 read through
+BlockChain.State(), snapshot-backed on snapshot nodes) in every observation of the whole check. A parent state older
+than the 128-layer cap was NOT added: flattening to disk by age also needs > 4 MB of accumulated diffs
+(aggregatorMemoryLimit) and heights >= 50 make tx_pool.UpdateBlacklist issue HTTP requests with 2 s timeouts; instead
+the restart that enables snapshots regenerates the snapshot from the head state, which puts transaction-written values
+into the disk layer cheaply (third signature above: 0x1235 written by setB in block 1, regenerated into the disk layer,
+cleared in block 2, still read back by the snapshot node).
+
 M20 (commitBlock does not RevertToSnapshot after a failing transaction: `_ = snap` instead of
 `state.RevertToSnapshot(snap)`): tried, quick exits 0, and that is correct for THIS property. Every node —
 proposer and receivers alike — executes the block through the same commitBlock, so the un-reverted residue
